@@ -229,6 +229,12 @@ pub fn expect(cap: usize, len: usize, act: &Act) -> Exp {
             v.clear();
             trace.push(Obs::Unit);
         }
+        ExtendHint(_, h) if h >= 5 => {
+            // an iterator whose size_hint is incorrect: what ends up in the buffer is not prescribed (std's
+            // convention for buggy iterators); the call must return, and ownership/safety judgements still apply
+            trace.push(Obs::Unit);
+            return Exp { panics: false, trace, post: Post::Unspecified };
+        }
         Extend(m) | ExtendHint(m, _) | ExtendPairs(m) => {
             v.extend((0..m).map(t_a));
             v = last_n(v, cap);
